@@ -270,7 +270,7 @@ def join_plan(head, ops):
 
 
 CFG_SIMPLER = [("pool", "-1"), ("wfrag", "none"), ("prefix", "0"), ("comp", "0"), ("level", "def"), ("verify", "0"),
-               ("madv", "0"), ("initfd", "0"), ("rinitfd", "0"), ("initexist", "0"), ("rint", "16"), ("rint", "2"),
+               ("madv", "0"), ("initfd", "0"), ("rinitfd", "0"), ("initexist", "0"), ("reinit", "0"), ("rint", "16"), ("rint", "2"),
                ("nsrc_user", "0"), ("dupsort", "0"), ("mergefail", "0"), ("tool", "0"), ("swrite", "0")]
 
 
